@@ -135,8 +135,10 @@ class LocateSlice(Contract):
             h1 = lambda: S.forall(0, n, lambda p: S.implies(rng(p), lambda: box(p)))
             h2 = lambda: S.forall(0, n, lambda p: S.implies(box(p), lambda: rng(p)))
             yield "selected-inside-box", S.forall(0, n, lambda p: S.implies(ins(p), lambda: box(p))), h1
-            yield "starts-at-first-in-travel-order", S.forall(0, n, lambda q: S.implies(
-                box(q), lambda: S.land(0 <= lo, lo < n, S.implies(S.land(0 <= lo, lo < n), lambda: box(lo)), tau * lo <= tau * q)))
+            # (same two lemmas: a label in the box is in the visited range, so the range is non-empty and starts at lo;
+            #  lo, being in the range, is in the box)
+            yield ("starts-at-first-in-travel-order", S.forall(0, n, lambda q: S.implies(
+                box(q), lambda: S.land(0 <= lo, lo < n, S.implies(S.land(0 <= lo, lo < n), lambda: box(lo)), tau * lo <= tau * q))), h2, h1)
             yield "every-step-th-inside-box-selected", S.forall(0, n, lambda p: S.implies(
                 S.land(box(p), tau * (p - lo) >= 0, S.mod(tau * (p - lo), abs(step)) == 0), lambda: ins(p))), h2
             return
@@ -234,31 +236,34 @@ class LocateOne(Contract):
 
 
 class LocateMany(Contract):
-    """locate_many(values, val) (unsorted search through argsort + searchsorted + clip):
-    every returned position is in bounds and holds the requested label whenever that label is on the
-    axis; IndexError iff the axis is empty and something is requested.  [C01, C07]"""
+    """locate_many(values, val, side) (unsorted search through argsort + searchsorted + clip): every
+    returned position is in bounds and holds the smallest label that is >= (side='left') or > (side='right')
+    the requested one, or the largest label when there is none -- in particular (left) the requested label
+    itself whenever it is on the axis; IndexError iff the axis is empty and something is requested.
+    [C01, C07]"""
     target = "dimarray.core.indexing:locate_many"
     props = ("C01", "C07")
     bound_names = ("values.n", "val.n")
 
     def cases(self, tier):
         for kind in ("f", "i", "O"):
-            yield {"name": "unsorted-%s" % kind, "kind": kind}
+            for side in ("left", "right"):
+                yield {"name": "unsorted-%s-%s" % (kind, side), "kind": kind, "side": side}
 
     def setup(self, S, case):
         values = S.array1d("values", case["kind"])
         val = S.array1d("val", case["kind"])
-        return {"values": values, "val": val, "args": (values, val)}
+        return {"values": values, "val": val, "args": (values, val), "kwargs": {"side": case["side"]}}
 
     def bind(self, values, val, issorted=False, side="left"):
-        if issorted or side != "left":
+        if issorted or side not in ("left", "right"):
             raise NotImplementedError("issorted / side")
         if isinstance(val, (list, tuple)):
             from dverif import symnp
             val = symnp.asarray(val)
         if not hasattr(val, "dtype") or val.ndim != 1:
             raise NotImplementedError("needle is not a 1-D array")
-        return {"name": "bound", "kind": values.dtype.kind}, {"values": values, "val": val}
+        return {"name": "bound", "kind": values.dtype.kind, "side": side}, {"values": values, "val": val}
 
     def fresh_result(self, S, case, env):
         return S.fresh_array1d(env["_fresh"] + ".matches", "I", S.n(env["val"]))
@@ -269,14 +274,46 @@ class LocateMany(Contract):
     def post(self, S, case, env, result):
         v, q = env["values"], env["val"]
         n, m = S.n(v), S.n(q)
+        above = (lambda a, b: a >= b) if case["side"] == "left" else (lambda a, b: a > b)
+        R = lambda j: S.at(result, j)
+        inb = lambda j: S.land(0 <= R(j), R(j) < n)
         yield "same-length", S.n(result) == m
-        yield "in-bounds", S.forall(0, m, lambda j: S.land(0 <= S.at(result, j), S.at(result, j) < n))
-        yield "present-labels-are-found", S.forall(0, m, lambda j: S.forall(0, n, lambda i: S.implies(
-            S.at(v, i) == S.at(q, j), lambda: S.at(v, S.at(result, j)) == S.at(q, j))))
+        yield "in-bounds", S.forall(0, m, lambda j: inb(j))
+        # ---- ghost hints: the proof, spelled out (each is PROVED from the library contracts before it is used) --------
+        # rank = inverse permutation of np.argsort(values): rank[p] is where label p stands in sorted order.
+        rank = S.sort_rank(v)
+        rk = lambda p: S.at(rank, p)
+        in_n = lambda p: S.land(0 <= p, p < n)
+        # L0: sorted order is label order
+        L0 = lambda: S.forall(0, n, lambda a: S.forall(0, n, lambda b: S.implies(rk(a) <= rk(b), lambda: S.at(v, a) <= S.at(v, b))))
+        # H1: a label at-or-above the requested one stands at or after the match   (searchsorted: all before R are below)
+        H1 = lambda: S.forall(0, m, lambda j: S.forall(0, n, lambda i: S.implies(
+            S.land(inb(j), above(S.at(v, i), S.at(q, j))), lambda: rk(R(j)) <= rk(i))))
+        # H2: when something is at-or-above, the match itself is at-or-above        (searchsorted: all from R on are not below)
+        H2 = lambda: S.forall(0, m, lambda j: S.forall(0, n, lambda i: S.implies(
+            S.land(inb(j), above(S.at(v, i), S.at(q, j))), lambda: above(S.at(v, R(j)), S.at(q, j)))))
+        # H3: when nothing is at-or-above, the match is the last label in sorted order  (R == n, clipped to n-1)
+        H3 = lambda: S.forall(0, m, lambda j: S.implies(
+            S.land(inb(j), S.forall(0, n, lambda i: S.lnot(above(S.at(v, i), S.at(q, j))))),
+            lambda: S.forall(0, n, lambda i: rk(i) <= rk(R(j)))))
+        yield ("smallest-label-at-or-above", S.forall(0, m, lambda j: S.forall(0, n, lambda i: S.implies(
+            S.land(inb(j), above(S.at(v, i), S.at(q, j))),
+            lambda: S.land(above(S.at(v, R(j)), S.at(q, j)), S.at(v, R(j)) <= S.at(v, i))))), L0, H1, H2)
+        yield ("largest-label-when-none-above", S.forall(0, m, lambda j: S.implies(
+            S.land(inb(j), S.forall(0, n, lambda i: S.lnot(above(S.at(v, i), S.at(q, j))))),
+            lambda: S.forall(0, n, lambda i: S.at(v, i) <= S.at(v, R(j))))), H3)
+        if case["side"] == "left":
+            # corollary of smallest-label-at-or-above (stated as a hint so that it is available here)
+            C = lambda: S.forall(0, m, lambda j: S.forall(0, n, lambda i: S.implies(
+                S.land(inb(j), above(S.at(v, i), S.at(q, j))),
+                lambda: S.land(above(S.at(v, R(j)), S.at(q, j)), S.at(v, R(j)) <= S.at(v, i)))))
+            yield ("present-labels-are-found", S.forall(0, m, lambda j: S.forall(0, n, lambda i: S.implies(
+                S.land(inb(j), S.at(v, i) == S.at(q, j)), lambda: S.at(v, R(j)) == S.at(q, j)))), C)
 
     def canaries(self, S, case, env, result):
         v, q = env["values"], env["val"]
-        yield "everything-is-found", S.forall(0, S.n(q), lambda j: S.at(v, S.at(result, j)) == S.at(q, j))
+        yield "everything-is-found", S.forall(0, S.n(q), lambda j: S.implies(
+            S.land(0 <= S.at(result, j), S.at(result, j) < S.n(v)), lambda: S.at(v, S.at(result, j)) == S.at(q, j)))
 
 
 class ExpandedIndexer(Contract):
